@@ -26,7 +26,10 @@ RenameFails(e) ==
        (IF e.out.k # "ok" THEN {"rename-raised"}
         ELSE (IF e.out.s # Canon(e.style, w) THEN {"not-canonical"} ELSE {})
              \cup (IF e.again.k = "ok" /\ e.again.s = e.out.s THEN {} ELSE {"not-idempotent"})
-             \cup (IF e.back.k = "ok" /\ e.back.s = e.name THEN {} ELSE {"snake-does-not-recover"}))
+             \cup (IF e.back.k = "ok" /\ e.back.s = e.name THEN {} ELSE {"snake-does-not-recover"})
+             \* pairs of styles: the styled form taken to every other style is that style's canonical spelling
+             \cup (IF "cross" \in DOMAIN e /\ \E i \in DOMAIN e.cross : e.cross[i].out.k # "ok" \/ e.cross[i].out.s # Canon(e.cross[i].style, w)
+                   THEN {"pair-of-styles-not-canonical"} ELSE {}))
 
 (* keys written by a class with rename options: into_data keys / dict(rename=) keys *)
 ClsRenameFails(e) ==
